@@ -38,7 +38,7 @@ class Check(E3Check):
             "possibly-begun leave; non-zero only after the full timeout (clock read before the deadline was computed vs. after return); each notify block runs once; "
             "nothing is left behind (stuck witness). Non-trivial: the count returned to zero >= 2 times and a wait or notify was registered within 3 events of a zero "
             "transition; distinct = distinct program texts.")
-    assumptions = ["no clock is stepped during a run", "one-sided stamp logic (DESIGN S2/S3)"]
+    assumptions = ["a timed wait counts as early only if it is short on CLOCK_MONOTONIC, CLOCK_REALTIME and CLOCK_BOOTTIME, measured on one CPU (DESIGN S3)", "one-sided stamp logic (DESIGN S2/S3)"]
     G = Grammar()
 
     def recipe_strategy(self, tier):
